@@ -23,8 +23,10 @@ from pathlib import Path
 from typing import IO, Optional, Type, cast
 
 from binaryornot.check import is_binary
+from boolean.boolean import ParseError
 from jinja2 import Environment, FileSystemLoader, Template
 from jinja2.exceptions import TemplateNotFound
+from license_expression import ExpressionError
 
 from . import ReuseInfo
 from ._util import _determine_license_suffix_path
@@ -36,9 +38,12 @@ from .comment import (
 )
 from .exceptions import CommentCreateError, MissingReuseInfoError
 from .extract import (
+    _HEADER_BYTES,
+    _contains_snippet,
     contains_reuse_info,
+    decoded_text_from_binary,
     detect_line_endings,
-    reuse_info_of_file,
+    extract_reuse_info,
 )
 from .header import add_new_header, find_and_replace_header
 from .i18n import _
@@ -79,9 +84,17 @@ def own_reuse_info(path: StrPath) -> ReuseInfo:
     is carried over into the .license file.
     """
     path = Path(path)
-    with contextlib.suppress(OSError, UnicodeError):
+    # As the linter reads the file, but contributors count as well.
+    with contextlib.suppress(
+        OSError, UnicodeError, ExpressionError, ParseError
+    ):
         if not is_binary(str(path)):
-            return reuse_info_of_file(path, path, path.parent)
+            with path.open("rb") as fp:
+                limit = None if _contains_snippet(fp) else _HEADER_BYTES
+                fp.seek(0)
+                return extract_reuse_info(
+                    decoded_text_from_binary(fp, size=limit)
+                )
     return ReuseInfo()
 
 
